@@ -216,11 +216,26 @@ def lean_stage(ctx, mods):
     for h in hits:
         problems.append("forbidden construct: " + h)
     if ctx.tier != "quick":
-        for m in mods:
-            rc, o, e, dt = run(["lake", "env", "leanchecker", m], cwd=LEAN, timeout=3600)
-            ctx.cov.setdefault("leanchecker", {})[m] = rc
-            if rc != 0:
-                problems.append("leanchecker rejected %s: %s" % (m, (o + e)[-500:]))
+        # translator self-check: the generated IR evaluated in Python against independent big-integer oracles
+        rc, o, e, dt = run([sys.executable, os.path.join(VERIF, "tools", "rs2lean", "selfcheck.py"), "--n", "400", "--n-alg", "200", "--n-vec", "200",
+                            "--seed", str(ctx.seed)], timeout=3600)
+        ctx.cov["translator_selfcheck"] = {"rc": rc, "wall_s": round(dt, 1), "tail": (o + e)[-300:]}
+        if rc != 0:
+            problems.append("translator selfcheck failed: " + (o + e)[-800:])
+        # independent re-check of the compiled property modules (and their own sub-modules) with leanchecker
+        sub = []
+        for f in import_closure(mods):
+            rel = os.path.relpath(f, LEAN)[:-5].replace(os.sep, ".")
+            if any(rel == m or rel.startswith(m + ".") for m in mods):
+                sub.append(rel)
+        from concurrent.futures import ThreadPoolExecutor
+        def lc(m):
+            return m, run(["lake", "env", "leanchecker", m], cwd=LEAN, timeout=3600)
+        with ThreadPoolExecutor(max_workers=4) as ex:
+            for m, (rc, o, e, dt) in ex.map(lc, sorted(set(sub))):
+                ctx.cov.setdefault("leanchecker", {})[m] = {"rc": rc, "wall_s": round(dt, 1)}
+                if rc != 0:
+                    problems.append("leanchecker rejected %s: %s" % (m, (o + e)[-500:]))
     return len(problems) == 0, problems
 
 
